@@ -234,6 +234,9 @@ class Server(object):
             self.send(conn, req, "RESULT", wire.result_void())
         elif kind == "close":
             self.node.net.server_close(conn)
+        elif kind == "eof":
+            # an orderly close: the reactor sees a zero-byte read and calls close(), not defunct()
+            self.node.net.server_close(conn, eof=True)
         elif kind == "silence":
             pass
         else:
@@ -276,7 +279,7 @@ def expectation(case, req_op, reply, remote):
     ready | authfail | connfail | anyfail | continue | continue-or-connfail | continue-or-anyfail"""
     kind = reply[0]
     auth = case["auth"]
-    if kind in ("close", "silence"):
+    if kind in ("close", "eof", "silence"):
         return "connfail"
     if kind == "error":
         ek = reply[1]
@@ -519,7 +522,7 @@ s_challenge = st.tuples(st.just("challenge"), st.sampled_from([b"PLAIN-START", b
 s_success = st.tuples(st.just("success"), st.sampled_from([None, b"", b"ok"]).map(lambda b: None if b is None else b.hex()))
 s_error = st.tuples(st.just("error"), st.sampled_from(["bad_credentials", "protocol", "server", "overloaded"]), st.integers(0, 2))
 s_any_reply = st.one_of(s_supported, st.just(("ready",)), st.tuples(st.just("authenticate"), st.integers(0, 1)),
-                        s_challenge, s_success, s_error, st.just(("result",)), st.just(("close",)), st.just(("silence",)))
+                        s_challenge, s_success, s_error, st.just(("result",)), st.just(("close",)), st.just(("eof",)), st.just(("silence",)))
 
 
 @st.composite
@@ -563,7 +566,7 @@ def s_case(draw):
 
 # exhaustive: every script of length <= 3 over a reduced alphabet
 SMALL = [["supported", ["lz4", "snappy"], "ok"], ["ready"], ["authenticate", 0], ["challenge", b"x".hex()], ["success", None],
-         ["error", "bad_credentials", 0], ["error", "protocol", 0], ["error", "server", 0], ["result"], ["close"], ["silence"]]
+         ["error", "bad_credentials", 0], ["error", "protocol", 0], ["error", "server", 0], ["result"], ["close"], ["eof"], ["silence"]]
 
 
 def enum_chunks():
